@@ -47,7 +47,7 @@ def atoms_of(validations):
                 out.add('keyset')
             if re.search(r'not_equal\(', p):
                 out.add('metadata')
-            if re.search(r'custom == custom|== custom\)|custom != ', p):
+            if re.search(r'custom (==|!=) custom|(==|!=) custom\)|custom (!=|==) ', p):
                 out.add('registration')
             if re.search(r'is\(.*custom\.type.*custom\.type', p):
                 out.add('custom-type-identity')
